@@ -219,6 +219,16 @@ def ob_install_generators():
                                        install_tag='t', install_mode=None, exclude=(set(), set()), subproject='', follow_symlinks=None)
             be.build = types.SimpleNamespace(get_install_subdirs=lambda: [sd])
             be.generate_subdir_install(d); got = d.install_subdirs; key = 'install_subdirs'
+            # what install_subdir() documents: the directory is installed INTO install_dir under its own (last) name - however the name was spelled,
+            # 'x', 'x/' and 'a/x/' all end in x - unless strip_directory, which installs the contents directly into install_dir
+            comps = [x for x in isub.split('/') if len(x)]
+            if len(got) == 1 and len(comps) and not decide(bt_any(isub.startswith('/'))):
+                base = idir if decide(bt_any(idir.startswith('/'))) else prefix + '/' + idir          # os.path.join: an absolute install_dir stands for itself
+                want = [x for x in base.split('/') if len(x)] + ([] if strip else [comps[-1]])
+                have = [x for x in got[0].install_path.split('/') if len(x)]
+                check(len(have) == len(want) and all(len(x) == len(y) and decide(bt_any(eq(x, y))) for x, y in zip(have, want)),
+                      'install_subdir(): the destination is install_dir plus the last name of the directory (however spelled) unless strip_directory')
+                cover('subdir-named')
         if kind == 4:
             # a build target / custom target: TargetInstallData derives the name from the directory when none is given
             outdir = sym_str(1 + choose(3, 'ol'), 'outdir', alphabet=DA)
@@ -370,6 +380,14 @@ def ob_targets_vs_ninja(dim, full=False):
         inst = {os.path.normpath(k): v for k, v in c.installed.items()}
         prefix = c.it.environment.coredata.optstore.get_value_for('prefix')
         plan_data = c.install_plan.get('data', {})
+        tree = os.path.normpath(os.path.join(c.src, 'tree'))
+        check((tree in inst) == (pr.subdir_dest is not None), 'an installed directory is listed iff install_subdir() was called')
+        if pr.subdir_dest is not None and tree in inst:
+            check(os.path.normpath(inst[tree]) == os.path.join(prefix, pr.subdir_dest), 'install_subdir(): the directory lands in install_dir under its own name (however the name was spelled) unless strip_directory')
+            pl = {os.path.normpath(k): e for k, e in c.install_plan.get('install_subdirs', {}).items()}
+            check(tree in pl and os.path.normpath(pl[tree]['destination'].replace('{prefix}', prefix).replace('{datadir}', os.path.join(prefix, 'share'))) == os.path.join(prefix, pr.subdir_dest), 'the install plan names the same destination for the directory')
+            cover('subdir')
+        inst.pop(tree, None)
         data_inst = {k: v for k, v in inst.items() if k.startswith(os.path.normpath(c.src) + os.sep)}
         check(sorted(os.path.normpath(k) for k in plan_data) == sorted(data_inst), 'the install plan lists exactly the data files that are installed')
         for k, e in plan_data.items():
@@ -380,9 +398,12 @@ def ob_targets_vs_ninja(dim, full=False):
                     os.path.normpath(os.path.join(c.src, 'two.dat')): os.path.join(prefix, 'share/kept', 'two.dat')}
         check({k: os.path.normpath(v) for k, v in data_inst.items()} == exp_data, 'install_data(preserve_path:) keeps or drops the sub-directory as declared')
         inst = {k: v for k, v in inst.items() if k not in data_inst}
-        exp_inst = {ab(pr.outs['C'][0]): os.path.join(c.it.environment.coredata.optstore.get_value_for('prefix'), 'share', 'c1.txt')} if pr.installed_c else {}
+        exp_inst = {ab(o): os.path.join(prefix, d) for o, d in zip(pr.outs['C'], pr.c_dest) if d is not None} if pr.installed_c else {}
         check(inst == exp_inst, 'exactly the installed outputs are listed, with the destination install uses')
-        if 'C' in by_name: check(by_name['C']['installed'] == pr.installed_c, 'the installed flag of a target')
+        if 'C' in by_name:
+            check(by_name['C']['installed'] == pr.installed_c, 'the installed flag of a target')
+            if pr.installed_c:
+                check(list(by_name['C'].get('install_filename', [])) == [None if d is None else os.path.join(prefix, d) for d in pr.c_dest], 'install_filename names, output by output, where install puts it')
         cover('done')
         if pr.installed_c: cover('installed')
         if pr.b_generated: cover('generator')
@@ -434,12 +455,12 @@ def obligations(tier):
                           labels=('data', 'man', 'headers')))
     out.append(Obligation('install-plan/interleaved', ob_install_many(), dict(entries=3, sections='data | configure | python in any order'), labels=('done',)))
     out.append(Obligation('install-generators', ob_install_generators(), dict(kinds='headers | man | data | install_subdir | build target', directories='1-3 chars over ab/ (trailing slash, absolute, nested)',
-                          placeholders='{prefix} {includedir} {mandir} {datadir}', strip_directory='both'), labels=('headers', 'man', 'data', 'install_subdirs', 'targets'), max_paths=3000000))
+                          placeholders='{prefix} {includedir} {mandir} {datadir}', strip_directory='both'), labels=('headers', 'man', 'data', 'install_subdirs', 'targets', 'subdir-named'), max_paths=3000000))
     out.append(Obligation('buildoptions', ob_options(), dict(options='project int/bool, system combo, builtin bool; symbolic values'), labels=('done',)))
     out.append(Obligation('install-targets', ob_install_targets(), dict(real='Backend.generate_target_install, CustomTarget.install_dir_names, mintro.list_install_plan', outputs='1-3', install_dir="one for all | one per output; false | plain string | get_option('bindir') | get_option('datadir')"), labels=('installed', 'nothing')))
     for dim in ('inputs', 'consumers'):
         out.append(Obligation('targets-vs-ninja[%s]' % dim, ob_targets_vs_ninja(dim, tier != 'quick'), dict(real='Interpreter.run + NinjaBackend.generate + mintro.list_targets / list_installed on a generated project without a compiled language',
-                              targets='3 custom targets (1-2 outputs) consuming a source file / a whole target / one indexed output / a configure_file output / a generator list; alias / run target; subdirectory',
-                              symbolic='build_by_default x2, build_always_stale, install, the index into a multi-output target', varies=dim), labels=('done', 'installed') + (('generator',) if dim == 'inputs' else ()), max_paths=2000000, path_timeout=300))
+                              targets='3 custom targets (1-2 outputs) consuming a source file / a whole target / one indexed output / a configure_file output / a generator list; alias / run target; subdirectory; outputs of one target that differ only in case, each with its own install_dir; install_subdir of a name with and without a trailing slash, with and without strip_directory',
+                              symbolic='build_by_default x2, build_always_stale, install, the index into a multi-output target', varies=dim), labels=('done', 'installed') + (('generator', 'subdir') if dim == 'inputs' else ()), max_paths=2000000, path_timeout=300))
     out.append(Obligation('buildsystem-files', ob_buildsystem_files(), dict(real='Interpreter (subdir, subproject), get_build_def_files, mintro.list_buildsystem_files', guards='4 symbolic conditions: two subdirs (one with a nested subdir), one subproject'), labels=('done',)))
     return out
